@@ -684,12 +684,16 @@ class CallMixin:
         raise Unsupported("range with step")
 
     def bi_min(self, args, kwargs, st, k):
+        if len(args) == 2 and (self.is_opt(args[0]) or self.is_opt(args[1])):
+            return self.unopt(args[0], st, lambda a, s: self.unopt(args[1], s, lambda b, s2: self.bi_min([a, b], kwargs, s2, k)))
         if len(args) == 2:
             x, y, ty = num_pair(self.num(args[0]), self.num(args[1]))
             return k(Val(ty, z3.If(x <= y, x, y)), st)
         raise Unsupported("min()")
 
     def bi_max(self, args, kwargs, st, k):
+        if len(args) == 2 and (self.is_opt(args[0]) or self.is_opt(args[1])):
+            return self.unopt(args[0], st, lambda a, s: self.unopt(args[1], s, lambda b, s2: self.bi_max([a, b], kwargs, s2, k)))
         if len(args) == 2:
             x, y, ty = num_pair(self.num(args[0]), self.num(args[1]))
             return k(Val(ty, z3.If(x >= y, x, y)), st)
